@@ -159,7 +159,14 @@ fn make_tail(r: &mut crate::rng::Rng, ct: u8) -> (Vec<u8>, Tail) {
             (v, Tail::CcsBad)
         }
         0x15 => (vec![r.u8()], Tail::AlertLone),
-        _ => match r.below(4) {
+        _ => match r.below(6) {
+            4 | 5 => {
+                // known type, framing complete, body cut where no valid encoding ends (length rewritten)
+                match gen::consistent_cut(r) {
+                    Some((b, _, _)) => (b, Tail::HsUnknownType),
+                    None => (vec![20, 0, 0], Tail::HsHeaderCut),
+                }
+            }
             0 => {
                 // unknown handshake type with a complete body
                 let known = [0u8, 1, 2, 4, 5, 6, 11, 12, 13, 14, 15, 16, 20, 22, 24, 67];
